@@ -11,6 +11,7 @@ import CSD.Driver.Kinds
 import CSD.Driver.Check
 import CSD.Driver.Chunks
 import CSD.Driver.FMCheck
+import CSD.Driver.RPFCCheck
 
 open CSD CSD.Driver
 
@@ -29,6 +30,7 @@ def runCase (c : Case) : IO Unit := do
   | "dacimg" => runDacImg c emit
   | "hhf" => runHhf c emit
   | "fm" => runFmStream c emit
+  | "rpfc" => runRpfcStream c emit
   | _ => emit 1 s!"ERR unknown-stream {c.stream}"
 
 partial def loop (h : IO.FS.Stream) (cur : Option Case) : IO Unit := do
